@@ -466,7 +466,9 @@ class GenericWriter(ABC):
     def __init__(self, schema, metadata=None, validator=None, options={}):
         self._named_schemas = {}
         self.validate_fn = _validate if validator else None
-        self.metadata = metadata or {}
+        # a copy: the header keys (avro.schema, avro.codec) are added below,
+        # and the caller may well pass the same dict to the next writer
+        self.metadata = dict(metadata) if metadata else {}
         self.options = options
 
         # A schema of None is allowed when appending and when doing so the
